@@ -188,7 +188,12 @@ class ObjectMeta(type, Element):
             value = getattr(cls, param.name, NotPassed())
             if (
                 value == param.default
-                or (param.name == "additionalProperties" and value is True)
+                or (
+                    param.name == "additionalProperties"
+                    and value is True
+                    # Unless a parent model restricts them.
+                    and getattr(super_cls, param.name, True) is True
+                )
                 or param.name == "description"
             ):
                 continue
